@@ -239,6 +239,12 @@ def collect(prop, repo):
                     if cl is None or len(cl.params) < 2:
                         continue
                     pname = cl.params[1][0]
+                    # local names for the same payload: `let a = e;` / `let a = e.clone();`
+                    same = {pname, pname + '.clone()'}
+                    btxt = re.sub(r'\s+', ' ', src[cl.body[0].start:cl.body[-1].end]) if cl.body else ''
+                    for m in re.finditer(r'let (?:mut )?(\w+) = (\w+)(\.clone\(\))? ?;', btxt):
+                        if m.group(2) in [x.split('.')[0] for x in same]:
+                            same.add(m.group(1)); same.add(m.group(1) + '.clone()')
                     # sink_error calls directly in this handler (not inside a nested new_observer)
                     def visit(ts):
                         for k, t in enumerate(ts):
@@ -248,7 +254,7 @@ def collect(prop, repo):
                                 visit(t.kids)
                             if t.is_id('sink_error') and k + 1 < len(ts) and ts[k + 1].is_group('('):
                                 arg = re.sub(r'\s+', '', src[ts[k + 1].start + 1:ts[k + 1].end - 1])
-                                if pname == '_' or arg not in (pname, pname + '.clone()'):
+                                if pname == '_' or arg not in same:
                                     bad.append('sink_error(%s) in an error handler whose parameter is `%s`' % (arg, pname))
                     visit(cl.body)
                 if bad:
